@@ -292,6 +292,91 @@ func (P *Prog) receiverStores(fn *ssa.Function) []*ssa.Store {
 	return out
 }
 
+// recvWrite: one assignment of a whole structure value to the receiver of a
+// decoder: a whole-value store `*m = v`, or the stores of a composite literal
+// assigned in place (`*m = T{...}` compiled to one store per field, all in
+// one block); the value is assembled from the field stores in that case.
+type recvWrite struct {
+	fn       *ssa.Function
+	at       ssa.Instruction // first store of the group (facts are taken before it)
+	stores   []*ssa.Store
+	val      *Term
+	complete bool     // every field of the structure is written
+	fields   []string // field-wise groups: the fields written
+	// root: the local the stored value is loaded from (value built in place)
+	root *ssa.Alloc
+}
+
+func (P *Prog) receiverWrites(fn *ssa.Function) []*recvWrite {
+	var out []*recvWrite
+	seen := map[*ssa.Function]bool{}
+	isRecv := func(v ssa.Value, f *ssa.Function) bool {
+		for {
+			switch x := v.(type) {
+			case *ssa.ChangeType:
+				v = x.X
+				continue
+			case *ssa.Parameter:
+				return paramIndex(x) == 0 && x.Parent() == f
+			}
+			return false
+		}
+	}
+	var visit func(f *ssa.Function, depth int)
+	visit = func(f *ssa.Function, depth int) {
+		if f == nil || seen[f] || !P.inPkg(f) || depth > 4 {
+			return
+		}
+		seen[f] = true
+		for _, b := range f.Blocks {
+			var grp *recvWrite
+			for _, in := range b.Instrs {
+				switch in := in.(type) {
+				case *ssa.Store:
+					if isRecv(in.Addr, f) {
+						w := &recvWrite{fn: f, at: in, stores: []*ssa.Store{in}, val: P.terms.of(in.Val), complete: true}
+						if u, ok := in.Val.(*ssa.UnOp); ok {
+							if a, ok := u.X.(*ssa.Alloc); ok {
+								w.root = a
+							}
+						}
+						out = append(out, w)
+						continue
+					}
+					fa, ok := in.Addr.(*ssa.FieldAddr)
+					if !ok || !isRecv(fa.X, f) {
+						continue
+					}
+					st, ok := deref(fa.X.Type()).Underlying().(*types.Struct)
+					if !ok {
+						continue
+					}
+					if grp == nil {
+						grp = &recvWrite{fn: f, at: in, val: &Term{Op: "load", Args: []*Term{T("param", "0")}}}
+						out = append(out, grp)
+					}
+					name := st.Field(fa.Field).Name()
+					grp.stores = append(grp.stores, in)
+					grp.fields = append(grp.fields, name)
+					grp.val = updatePath(grp.val, []string{name}, P.terms.of(in.Val))
+					have := map[string]bool{}
+					for _, n := range grp.fields {
+						have[n] = true
+					}
+					grp.complete = len(have) == st.NumFields()
+				case ssa.CallInstruction:
+					c := in.Common()
+					if callee := c.StaticCallee(); callee != nil && len(c.Args) > 0 && isRecv(c.Args[0], f) && callee.Signature.Recv() != nil {
+						visit(callee, depth+1)
+					}
+				}
+			}
+		}
+	}
+	visit(fn, 0)
+	return out
+}
+
 type shape struct {
 	tag int64
 	n   int
@@ -503,22 +588,22 @@ func runC05(r *Report, tier string) {
 		op.check(okPrefix, why, why)
 
 		// stored value
-		sts := P.receiverStores(D)
+		sts := P.receiverWrites(D)
 		os := r.ob("R05.4", name+":stored-value", D, nil, "the decoder stores exactly one whole value into its receiver")
-		if len(sts) != 1 {
-			os.fail(fmt.Sprintf("%d stores to the receiver in the decoder's call tree", len(sts)))
+		if len(sts) != 1 || !sts[0].complete {
+			os.fail(fmt.Sprintf("%d assignments to the receiver in the decoder's call tree (a field-wise one must cover every field)", len(sts)))
 			continue
 		}
-		os.ok("one store at "+P.instrPos(sts[0]), false)
+		os.ok("one assignment at "+P.instrPos(sts[0].at), false)
 		st := sts[0]
-		V := P.terms.of(st.Val)
+		V := st.val
 		// R05.4
 		if name == "SignMessage" {
 			checkSignMessageDecoderElems(r, "R05.4")
 		} else {
 			sg := projectField(V, "Signature")
-			fs := P.factsBefore(st)
-			r.ob("R05.4", name+":nonempty-signature", st.Parent(), st, "stored Signature is non-empty").check(fs.holdsNonEmpty(sg), "fact len("+sg.String()+") != 0", "the decoder can store an empty signature: no fact len("+sg.String()+") != 0 before the store")
+			fs := P.factsBefore(st.at)
+			r.ob("R05.4", name+":nonempty-signature", st.fn, st.at, "stored Signature is non-empty").check(fs.holdsNonEmpty(sg), "fact len("+sg.String()+") != 0", "the decoder can store an empty signature: no fact len("+sg.String()+") != 0 before the store")
 		}
 		checkDecoderLayer(r, "R05.5", name, st, W, ivFn)
 	}
@@ -561,7 +646,13 @@ func runC05(r *Report, tier string) {
 			for _, bk := range [][2]string{{"Protected", "RawProtected"}, {"Unprotected", "RawUnprotected"}} {
 				o := r.ob("R05.5", shortFn(f)+":iv-order:"+bk[0], f, ci, "when the IV check runs, Headers."+bk[0]+" already holds the value decoded from Headers."+bk[1]+", and it is not changed afterwards")
 				cur := P.terms.loadPath(root, append(append([]string{}, path...), bk[0]), ci)
-				b, ok := unify(mustPat("mod(call<invoke:cbor.DecMode.Unmarshal>(%M, %SRC, %D), %L)"), cur, bindings{})
+				// the value after the call, possibly written as a projection of
+				// the whole object after the call
+				inner, full := modBase(cur)
+				b, ok := unify(mustPat("mod(call<invoke:cbor.DecMode.Unmarshal>(%M, %SRC, %D), %L)"), inner, bindings{})
+				if ok && !(b["D"].Op == "iface" && len(b["D"].Args) == 1 && b["D"].Args[0].eq(full)) {
+					ok = false
+				}
 				if !ok {
 					o.fail("at the IV check Headers." + bk[0] + " is " + cur.String() + ", not the result of a mode decode")
 					continue
@@ -592,36 +683,100 @@ func runC05(r *Report, tier string) {
 	checkCountersigValuePredicate(r, "R05.7")
 }
 
+// modBase: for f1(...fn(mod(call, L))) the mod term and the full location
+// L.fn...f1 the value lives at.
+func modBase(t *Term) (*Term, *Term) {
+	var fields []string
+	for t.Op == "field" && len(t.Args) == 1 {
+		fields = append(fields, t.S)
+		t = t.Args[0]
+	}
+	if t.Op != "mod" || len(t.Args) != 2 {
+		return t, nil
+	}
+	loc := t.Args[1]
+	for i := len(fields) - 1; i >= 0; i-- {
+		loc = &Term{Op: "field", S: fields[i], Args: []*Term{loc}}
+	}
+	return t, loc
+}
+
 // checkDecoderLayer: R05.5 layer facts on the Headers of the value a structure
 // decoder stores (shared with R13.2).
-func checkDecoderLayer(r *Report, rule, name string, st *ssa.Store, W *types.Named, ivFn *ssa.Function) {
+func checkDecoderLayer(r *Report, rule, name string, st *recvWrite, W *types.Named, ivFn *ssa.Function) {
 	P := r.P
-	V := P.terms.of(st.Val)
-	var vroot *ssa.Alloc
-	if u, ok := st.Val.(*ssa.UnOp); ok {
-		if a, ok := u.X.(*ssa.Alloc); ok {
-			vroot = a
-		}
+	V := st.val
+	ol := r.ob(rule, name+":layer", st.fn, st.at, "ok(decode RawProtected->Protected), ok(decode RawUnprotected->Unprotected), ok(IV check) hold for the Headers of the stored value")
+	layerFacts := func(fs factSet, H *Term) string {
+		miss, _ := fs.firstMissing([]factPat{
+			fp(okp("call<invoke:cbor.DecMode.Unmarshal>(%M1, *%H.RawProtected, iface<*ProtectedHeader>(%H.Protected))")),
+			fp(okp("call<invoke:cbor.DecMode.Unmarshal>(%M2, *%H.RawUnprotected, iface<*UnprotectedHeader>(%H.Unprotected))")),
+			fp(okp("call<" + shortFn(ivFn) + ">(%H)")),
+		}, bindings{"H": H})
+		return miss
 	}
-	ol := r.ob(rule, name+":layer", st.Parent(), st, "ok(decode RawProtected->Protected), ok(decode RawUnprotected->Unprotected), ok(IV check) hold for the Headers of the stored value")
-	if vroot == nil {
-		ol.fail("stored value is not a local built in place: " + V.String())
+	HV := projectField(V, "Headers")
+	fs := P.factsBefore(st.at)
+	switch {
+	case st.root != nil:
+		// the whole value is a local built in place
+		H := &Term{Op: "field", S: "Headers", Args: []*Term{P.terms.of(st.root)}}
+		miss := layerFacts(fs, H)
+		ol.check(miss == "", "three facts on "+H.String(), "missing before the store: "+miss)
+	case HV.Op == "res" && HV.S == "0" && HV.Args[0].Op == "call" && P.calleeOfTerm(HV.Args[0]) != nil:
+		// the Headers are produced by a helper whose success is required here:
+		// every delivering exit of the helper returns a local built in place
+		// that carries the three facts
+		call := HV.Args[0]
+		h := P.calleeOfTerm(call)
+		ei := errIndex(h)
+		why := ""
+		if ei < 0 || !fs.has(okFact(&Term{Op: "res", S: itoa(int64(ei)), Args: []*Term{call}})) {
+			why = "the Headers come from " + call.S + " without its success being required before the store"
+		}
+		m := map[string]*Term{}
+		for i, a := range call.Args {
+			m[itoa(int64(i))] = a
+		}
+		var hv *Term
+		for _, hx := range P.factsOf(h).exits {
+			if hx.kind == exitFailure || why != "" {
+				continue
+			}
+			u, isLoad := hx.ret.Results[0].(*ssa.UnOp)
+			var a *ssa.Alloc
+			if isLoad {
+				a, _ = u.X.(*ssa.Alloc)
+			}
+			if a == nil {
+				why = "helper " + shortFn(h) + " returns " + truncate(hx.results[0].String(), 100) + ", not a local built in place"
+				continue
+			}
+			if miss := layerFacts(exitFacts(P, hx), P.terms.of(a)); miss != "" {
+				why = "in helper " + shortFn(h) + ": missing on a delivering exit: " + miss
+			}
+			rv := hx.results[0].subst(m)
+			if hv != nil && !hv.eq(rv) {
+				why = "helper " + shortFn(h) + " delivers different values on different exits"
+			}
+			hv = rv
+		}
+		if hv == nil && why == "" {
+			why = "helper " + shortFn(h) + " never delivers a value"
+		}
+		ol.check(why == "", "three facts on the helper's local on every delivering exit of "+shortFn(h), why)
+		if hv != nil {
+			V = updatePath(V, []string{"Headers"}, hv)
+		}
+	default:
+		ol.fail("the stored Headers are neither a local built in place nor a decoding helper's result: " + truncate(HV.String(), 160))
 		return
 	}
-	H := &Term{Op: "field", S: "Headers", Args: []*Term{P.terms.of(vroot)}}
-	fs := P.factsBefore(st)
-	b0 := bindings{"H": H}
-	miss, _ := fs.firstMissing([]factPat{
-		fp(okp("call<invoke:cbor.DecMode.Unmarshal>(%M1, *%H.RawProtected, iface<*ProtectedHeader>(%H.Protected))")),
-		fp(okp("call<invoke:cbor.DecMode.Unmarshal>(%M2, *%H.RawUnprotected, iface<*UnprotectedHeader>(%H.Unprotected))")),
-		fp(okp("call<" + shortFn(ivFn) + ">(%H)")),
-	}, b0)
-	ol.check(miss == "", "three facts on "+H.String(), "missing before the store: "+miss)
 	// raw fields come from the wire struct
 	for _, pr := range [][2]string{{"RawProtected", "Protected"}, {"RawUnprotected", "Unprotected"}} {
 		hv := projectField(projectField(V, "Headers"), pr[0])
 		okRaw := hv.Op == "field" && hv.S == pr[1] && hv.Args[0].Op == "mod" && (W == nil || strings.Contains(hv.Args[0].String(), "*"+W.Obj().Name()))
-		r.ob(rule, name+":raw:"+pr[0], st.Parent(), st, "Headers."+pr[0]+" of the stored value is the wire struct's "+pr[1]+" slot").check(okRaw, hv.String(), "Headers."+pr[0]+" = "+hv.String())
+		r.ob(rule, name+":raw:"+pr[0], st.fn, st.at, "Headers."+pr[0]+" of the stored value is the wire struct's "+pr[1]+" slot").check(okRaw, hv.String(), "Headers."+pr[0]+" = "+hv.String())
 	}
 }
 
